@@ -537,6 +537,40 @@ func (m *Monitors) checkExecEnd() {
 			m.violate("C06", "executed-more-than-committed", "%s executed %d commands but its committed chain holds only %d distinct commands (a command was executed twice or without being committed)",
 				a.Name(), a.CIO.CmdCount(), len(firstPos))
 		}
+		// which commands did the replica execute? Reconstruct its executed sequence from the execution events it dispatched
+		// (first occurrence per client above the client's watermark) and accept the reconstruction only if count and state
+		// digest agree with the replica's own; then a success outcome for a command outside that sequence is a success for
+		// a command the replica never executed.
+		{
+			last := map[uint32]uint64{}
+			h := sha256.New()
+			cnt := 0
+			executed := map[clientpb.MessageID]bool{}
+			for _, ev := range m.execEv[a.Idx] {
+				if ev.abort {
+					continue
+				}
+				for _, cmd := range ev.cmds {
+					if s, ok := last[cmd.GetClientID()]; ok && s >= cmd.GetSequenceNumber() {
+						continue
+					}
+					last[cmd.GetClientID()] = cmd.GetSequenceNumber()
+					h.Write(cmd.GetData())
+					cnt++
+					executed[cmd.ID()] = true
+				}
+			}
+			if cnt == int(a.CIO.CmdCount()) && bytes.Equal(h.Sum(nil), a.CIO.Hash().Sum(nil)) {
+				m.Obs["executed_sequences_reconstructed"]++
+				for id := range m.succ[a.Idx] {
+					if !executed[id] {
+						m.violate("C06", "success-not-executed", "%s reported success for command (%d,%d), which it skipped and never executed (its state digest is that of the sequence without it)", a.Name(), id.ClientID, id.SequenceNumber)
+					}
+				}
+			} else if a.CIO.CmdCount() > 0 {
+				m.Obs["executed_sequences_not_reconstructed"]++
+			}
+		}
 		type sp struct {
 			id  clientpb.MessageID
 			pos int
